@@ -2,6 +2,7 @@ import DriverVSA.SIOps
 import DriverVSA.SetOps
 import DriverVSA.ExprOps
 import DriverVSA.BalOps
+import DriverVSA.BalancerOps
 /-! Line-protocol driver for the VSA family: one request per line, first token selects the handler.
 Imports only core-Lean model files under Claripy/ (never Mathlib), so it links as an executable. -/
 
@@ -11,6 +12,7 @@ def dispatch (line : String) : String :=
   | "ds" :: args => DriverVSA.handleDS args
   | "ex" :: args => DriverVSA.handleEx args
   | "bal" :: args => DriverVSA.handleBal args
+  | "balance" :: args => DriverVSA.handleBalance args
   | _ => "bad-op"
 
 partial def loop (h : IO.FS.Stream) (out : IO.FS.Stream) : IO Unit := do
